@@ -3,6 +3,9 @@
 Oracle on the REAL `MicrogridApiSource` / `DataSourcingActor` (independent of the Lean model; recomputed from the
 script, from what the fake API saw, and from the samples read on the registry channels):
 
+  a channel = a distinct `get_channel_name()` (namespace, component, metric, RENDERED start time) that was requested —
+  what a subscriber listens on; requests with the same name are duplicates, requests whose start times are the same
+  instant written in different UTC offsets are different channels and each is owed every message;
   per channel whose request is acceptable (known component of a category with data, metric offered by the category),
   with M = the messages the script streams for its component, in order:
     in-order / exactly-once : the samples read are the samples of a contiguous tail M[k:] — (timestamp of the message,
@@ -29,7 +32,10 @@ RULE = ("scripts of 6-45 actions on 1-5 components (meter/inverter/battery/EV ch
         "connection point) run on the real MicrogridApiSource (65 %) or DataSourcingActor (35 %): subscriptions "
         "before the first message, exactly between two messages, back-to-back, 1-3 loop iterations after a message "
         "(fan-out in flight), after 3-12 queued messages, duplicated, for unknown ids, for other metrics / namespaces / "
-        "start times; fake API stream methods optionally suspend; every message carries exact values (integers, "
+        "start times (None, distinct instants, one instant written in several UTC offsets / zones = different channel "
+        "names although the datetimes are equal, equal renderings from different tzinfo objects = one channel); request "
+        "identity everywhere = the registry channel name a subscriber listens on; fake API stream methods optionally "
+        "suspend; every message carries exact values (integers, "
         "halves, rarely NaN) in all attributes, pairwise distinct within a message; message CONTENT is unconstrained: "
         "per case the timestamps of a component are increasing / repeated / going backwards / far apart (days, years, "
         "the epoch, before it) / equal across components / all equal / a mix, and with p = 0, 0.15 or 0.4 a message "
